@@ -433,6 +433,7 @@ PROPS = {
             ['_send: one write of the encoding + flush; errno 32 closes and releases; errors re-raised as OSError', 'P'],
             ['PortServer: non-blocking listener poll, closed clients dropped, every open client polled once, accepted port named after peer', 'P'],
             ['parse_address(format_address(host, port)) == (host, port), all hosts without colon, ports 1..65535', 'P'],
+            ['PortServer(host, port[, backlog]) binds to exactly that address and listens, connect(host, port) connects to exactly it; TCP stream socket', 'P'],
             ['bytes fed -> exactly the complete messages (parser, C04-C06); iteration ends cleanly on closed port (C11)', 'PA'],
             ['real socketpair: every cut offset x segmentations; close seen by peer; TCP server with 3 clients; address grid', 'B'],
         ],
